@@ -8,7 +8,7 @@ cd $WT || exit 2
 git checkout -q -- . ; git diff --quiet || { echo "$WT not clean"; exit 2; }
 git apply "$d/patch.diff" || { echo "patch does not apply: $d"; exit 2; }
 for p in "$@"; do
-  out=$(cd /verif && VERIF_REPO=$WT timeout 1800 bin/check $p --tier ${SEED_TIER:-quick} 2>&1)
+  out=$(cd /verif && VERIF_NO_EVIDENCE=1 VERIF_REPO=$WT timeout 1800 bin/check $p --tier ${SEED_TIER:-quick} 2>&1)
   rc=$?
   echo "SEED $(basename $(dirname $d))/$(basename $d) check=$p exit=$rc $(echo "$out" | grep -c '^VIOLATION') violation line(s): $(echo "$out" | grep '^VIOLATION' | head -2 | sed 's/.*# obligation=//' | cut -c1-140 | tr '\n' '|')"
 done
